@@ -681,6 +681,11 @@ fn tiny_grid(c: &mut Case) {
     check_tsvd::<f32>(c, &d);
 }
 
+/// parameter builders keep every configured value whatever the order of the `with_*` steps
+fn builders_fam(c: &mut Case) {
+    scverif::builders::case(c, "C14")
+}
+
 fn main() {
     runner::main(Spec {
         property: "C14",
@@ -694,6 +699,7 @@ fn main() {
             "reference: cyclic Jacobi eigenvalues of the f64 covariance, cross-checked against a one-sided Jacobi SVD of the centred data (1e-12 of the trace), otherwise the case is inconclusive",
         ],
         families: vec![
+            Family::new("builders", 300, 3000, builders_fam),
             Family::new("pca_cov", 5000, 80000, pca_cov),
             Family::new("pca_corr", 4000, 60000, pca_corr),
             Family::new("pca_rankdef", 4000, 60000, pca_rankdef),
